@@ -23,8 +23,11 @@ def make_files(chk, runner, shapes, rng, n, maxrecs=8, pages=(1, 2, 1000), name=
     return out
 
 
-def run_reads(runner, shapes, cases, name):
-    """cases: [(ident, shape, filebytes, mode)] -> impl dict, model dict"""
+def run_reads(runner, shapes, cases, name, impl_only=()):
+    """cases: [(ident, shape, filebytes, mode)] -> impl dict, model dict; idents in impl_only are not given to the model"""
     lines = Fm.shape_lines(shapes) + ["%s read %s %s %s" % (i, sh.name, C.hexs(f), m) for i, sh, f, m in cases]
-    impl, model, e1, e2 = C.run_cases(lines, name, impl_cmd=[runner])
+    ml = None
+    if impl_only:
+        ml = Fm.shape_lines(shapes) + ["%s read %s %s %s" % (i, sh.name, C.hexs(f), m) for i, sh, f, m in cases if i not in impl_only]
+    impl, model, e1, e2 = C.run_cases(lines, name, impl_cmd=[runner], model_lines=ml)
     return impl, model, e1, e2
